@@ -5,8 +5,15 @@ import itertools
 
 from common import hexs, lean_driver, rng, unhexs
 
-TARGETS = ["RdVerif.Props.C09"]
-THEOREMS = ["RdVerif.C09.all_forms_elemFirst", "RdVerif.C09.all_forms_massFirst", "RdVerif.C09.canonical_fixed_point", "RdVerif.C09.parse_idempotent", "RdVerif.C09.id_roundtrip", "RdVerif.C09.attrs_agree"]
+TARGETS = ["RdVerif.Props.C09", "RdVerif.Props.C09Elements"]
+THEOREMS = ["RdVerif.C09.all_forms_elemFirst", "RdVerif.C09.all_forms_massFirst", "RdVerif.C09.canonical_fixed_point", "RdVerif.C09.parse_idempotent", "RdVerif.C09.id_roundtrip", "RdVerif.C09.attrs_agree",
+            "RdVerif.C09.element_table_is_periodic_table", "RdVerif.C09.symbol_table_is_inverse"]
+
+# the periodic table, written out independently of the library (the expectation for "Z agrees with the name")
+PERIODIC = ("H He Li Be B C N O F Ne Na Mg Al Si P S Cl Ar K Ca Sc Ti V Cr Mn Fe Co Ni Cu Zn Ga Ge As Se Br Kr Rb Sr Y Zr "
+            "Nb Mo Tc Ru Rh Pd Ag Cd In Sn Sb Te I Xe Cs Ba La Ce Pr Nd Pm Sm Eu Gd Tb Dy Ho Er Tm Yb Lu Hf Ta W Re Os Ir Pt "
+            "Au Hg Tl Pb Bi Po At Rn Fr Ra Ac Th Pa U Np Pu Am Cm Bk Cf Es Fm Md No Lr Rf Db Sg Bh Hs Mt Ds Rg Cn Nh Fl Mc "
+            "Lv Ts Og").split()
 PARTIAL = {}
 ASSUMPTIONS = [
     "model is exact for ASCII strings; non-ASCII spellings are outside the documented forms",
@@ -84,7 +91,7 @@ def all_names_dataset(rd, names):
 def correspondence(rep, ctx):
     rd = ctx.rd
     utils = rd.utils
-    elements = list(utils.Z_DICT.items())
+    elements = list(enumerate(PERIODIC, 1))      # NOT utils.Z_DICT: the expectation must not come from the code under test
     states = [""] + list(utils.METASTABLE_CHARS)
     thorough = ctx.tier == "thorough"
     masses = list(range(1, 301)) if thorough else MASSES_QUICK
@@ -238,7 +245,13 @@ def search(rep, ctx) -> bool:
     utils = rd.utils
     found = False
     states = [""] + list(utils.METASTABLE_CHARS)
-    for (Z, el), st, A, form in itertools.product(list(utils.Z_DICT.items()), states, range(1, 301), FORMS):
+    for Z, el in enumerate(PERIODIC, 1):
+        got = (outcome(utils.Z_to_elem, Z), outcome(utils.elem_to_Z, el))
+        if got != (("ok", el), ("ok", Z)):
+            rep.violation("failing-input", f"element table: Z_to_elem({Z}) = {got[0]}, elem_to_Z({el!r}) = {got[1]}; "
+                          f"element {Z} is {el}", {"call": "Z_to_elem", "input": Z, "expected": el, "observed": str(got)}, True)
+            return True
+    for (Z, el), st, A, form in itertools.product(list(enumerate(PERIODIC, 1)), states, range(1, 301), FORMS):
         s = spell(el, A, st, form)
         real = outcome(utils.parse_nuclide_str, s)
         if real != ("ok", f"{el}-{A}{st}"):
